@@ -275,7 +275,8 @@ fn join_binary(l: &str, op: &str, r: &str) -> String {
 
 /// Syntactic shapes (read off the real parse tree) that two recorded findings are about; used only by the
 /// known-findings matcher, which needs to name a family of inputs precisely:
-/// `else-without-conditional` = an else `|>` whose left operand is not a conditional (nor another else);
+/// `else-without-conditional` = an else `|>` whose left operand is not a conditional link (not a conditional, and
+/// not a chain ending in one: `a |> b`, `a + b |> c`, `a ?> b |> c |> d`);
 /// `else-chain-without-default` = an else-chain whose last link is itself a conditional;
 /// `expression-without-a-value` = a program without tokens (blanks and annotations aside) or an empty group `( )`;
 /// `reapply-under-operator` = a `^~` that is not an arm of a conditional / else-chain, an operand of `&&` /
@@ -293,7 +294,16 @@ pub fn shape_tags(src: &str) -> String {
     for n in nodes.iter() {
         match n.get_definition() {
             Def::ElseJump => {
-                let ok = matches!(n.get_left().and_then(def), Some(Def::JumpIfTrue) | Some(Def::JumpIfFalse) | Some(Def::ElseJump));
+                // the operand to the left of an else must be a conditional link: a conditional itself, or a chain whose
+                // own last link is a conditional (an else after a default, `a ?> b |> c |> d`, is the same family)
+                let ok = match n.get_left().and_then(def) {
+                    Some(Def::JumpIfTrue) | Some(Def::JumpIfFalse) => true,
+                    Some(Def::ElseJump) => {
+                        let inner_right = n.get_left().and_then(|l| nodes.get(l)).and_then(|ln| ln.get_right()).and_then(def);
+                        matches!(inner_right, Some(Def::JumpIfTrue) | Some(Def::JumpIfFalse))
+                    }
+                    _ => false,
+                };
                 if !ok {
                     else_bad = true;
                 }
@@ -536,6 +546,9 @@ impl Campaign for C06 {
         v.extend(seeded_scenario("( )", &[], vec![0]));
         v.extend(seeded_scenario("5 + ( )", &[], vec![0]));
         v.extend(seeded_scenario("{ ( ) }~~", &[], vec![0]));
+        // an else after a default (found by the thorough tier's operator triples): same family as D21
+        v.extend(seeded_scenario("i1 ?> i2 |> i3 |> i4", &["i1", "i2", "i3", "i4"], (0..16).collect()));
+        v.extend(seeded_scenario("i1 ?> i2._ |> !!i3 |> _.i4", &["i1", "i2", "i3", "i4"], (0..16).collect()));
         v.extend(operator_pairs());
         v
     }
